@@ -77,6 +77,8 @@ func wireName(id int) string {
 		return "*.z."
 	case 13:
 		return "z."
+	case 15:
+		return "mid.z."
 	default:
 		return "big.z."
 	}
@@ -115,6 +117,10 @@ func wireOpts(id int, stripUnknown bool) []dns.EDNS0 {
 		o = []dns.EDNS0{local(65001, []byte{9}), ecs(1, 24, 0, []byte{10, 1, 2})}
 	case 13:
 		o = []dns.EDNS0{ecs(2, 129, 0, make([]byte, 17))}
+	case 14:
+		o = []dns.EDNS0{ecs(1, 24, 0, []byte{10, 1, 2})}
+	case 15:
+		o = []dns.EDNS0{ecs(2, 128, 0, []byte{0x20, 1, 0xd, 0xb8, 0, 0, 0, 0, 0, 0, 0, 0, 0, 0, 0, 1})}
 	}
 	if stripUnknown {
 		var k []dns.EDNS0
